@@ -283,3 +283,13 @@ W('C19-W-reload-drops-kwargs', 'C19', 'C19.c', (HELP, "            d = load_data
 W('C19-W-loadlog-path-renamed', 'C19', 'C19.c', (HELP, "        return dict(path=path,\n                    factory=context.do(self.factory),", "        return dict(filename=path,\n                    factory=context.do(self.factory),"))
 W('C19-W-hdf5-copy-dropped', 'C19', 'C19.b', (EXP_H5, "            values = data[cid].copy()", "            values = data[cid]"))
 T('C19-T-table-local-rename', 'C19', (EXP_TAB, "        values = data[cid]\n\n        if mask is not None:\n            values = values[mask]\n\n        table[cid.label] = values", "        column = data[cid]\n\n        if mask is not None:\n            column = column[mask]\n\n        table[cid.label] = column"))
+
+# ------------------------------------------------------------------ C03.f / C18.e / C16 drop
+LA = 'glue/core/layer_artist.py'
+W('C03-W-inverse-uses-forward-fn', 'C03', 'C03.f', ('glue/core/component_link.py', "                                                                 using=self._inverse,\n                                                                 inverse=self._using,", "                                                                 using=self._using,\n                                                                 inverse=self._inverse,"))
+W('C03-W-links-drop-internal', 'C03', 'C03.f', (LM, "        return data_links | external_links", "        return external_links"))
+W('C03-W-discover-no-depth-test', 'C03', 'C03.f', (LM, "            if to_ in cids and cost >= depth[to_]:\n                continue\n", "            if to_ in cids:\n                continue\n"))
+W('C03-W-accessible-any-input', 'C03', 'C03.f', (LM, "            set(l.get_from_ids()) <= cids]", "            set(l.get_from_ids()) & cids]"))
+W('C18-W-container-remove-no-notify', 'C18', 'C18.e', (LA, "            self.artists.remove(artist)\n            artist.remove()\n            self._notify()", "            self.artists.remove(artist)\n            artist.remove()"))
+W('C18-W-container-append-notify-conditional', 'C18', 'C18.e', (LA, "        artist.zorder = max(a.zorder for a in self.artists) + 1\n        self._notify()", "        artist.zorder = max(a.zorder for a in self.artists) + 1\n        if len(self.artists) > 1:\n            self._notify()"))
+W('C16-W-scalar-bounds-kept', 'C16', 'C16.c', (FRB, "        if isinstance(bound, tuple):\n            slices.append(slice(None))\n        else:\n            slices.append(0)", "        slices.append(slice(None))"))
